@@ -42,9 +42,16 @@ type opsCase struct {
 	NilRecv bool   `json:"nil_receiver"`
 	// PreQuery: every observer is called on the constructor result *before* Decode (a fresh
 	// object may be queried; that must not influence what Decode produces)
-	PreQuery bool   `json:"query_before_decode,omitempty"`
-	Input    string `json:"input"`
-	Ops      []op   `json:"ops"`
+	PreQuery bool `json:"query_before_decode,omitempty"`
+	// FieldBuilt: the object is not decoded at all: it is the constructor result with every
+	// exported field assigned from the (valid) vector Input, as properties C03 / C12 allow.
+	FieldBuilt bool `json:"field_built,omitempty"`
+	// PreAssign (v2 only): exported fields of the optional groups assigned on the constructor
+	// result before its single Decode. A group the vector does not carry stays absent
+	// whatever its fields hold, so only query results (not those raw fields) are compared.
+	PreAssign []op   `json:"assigned_before_decode,omitempty"`
+	Input     string `json:"input"`
+	Ops       []op   `json:"ops"`
 }
 
 // subject is A or a twin: the object pointers of one version.
@@ -90,6 +97,12 @@ func (s subject) top() any {
 // makeSubject decodes the input; on failure the subject is the receiver left behind.
 func makeSubject(c opsCase) (subject, bool) {
 	lv := spec.Level(c.Level)
+	if c.FieldBuilt {
+		return makeSubjectFieldBuilt(c)
+	}
+	if len(c.PreAssign) > 0 && c.Ver == 2 && !c.NilRecv {
+		return makeSubjectPreAssigned(c)
+	}
 	if c.PreQuery && !c.NilRecv {
 		return makeSubjectPreQueried(c)
 	}
@@ -149,6 +162,94 @@ func makeSubjectPreQueried(c opsCase) (subject, bool) {
 		o.E.Decode(c.Input)
 	}
 	return subject{ver: 2, o2: o}, true
+}
+
+// makeSubjectFieldBuilt: constructor result + assignment of every exported field.
+func makeSubjectFieldBuilt(c opsCase) (subject, bool) {
+	lv := spec.Level(c.Level)
+	var s subject
+	var ref spec.Vec
+	var ok bool
+	if c.Ver == 3 {
+		if ref, ok = spec.AcceptV3(c.Input, lv); !ok {
+			return subject{}, false
+		}
+		o := obj3{level: lv}
+		switch lv {
+		case spec.Base:
+			o.B = m3.NewBase()
+		case spec.Temporal:
+			o.T = m3.NewTemporal()
+			o.B = o.T.BaseMetrics()
+		default:
+			o.E = m3.NewEnvironmental()
+			o.T, o.B = o.E.TemporalMetrics(), o.E.BaseMetrics()
+		}
+		s = subject{ver: 3, o3: o}
+		idx := 0
+		if ref.Ver == "3.1" {
+			idx = 1
+		}
+		s.setField("Ver", constOf(3, "Ver", idx))
+		for _, m := range spec.UpTo(spec.V3Metrics, lv) {
+			i := 0
+			if val, written := ref.Get(m.Name); written {
+				i = m.Index(val)
+			}
+			s.setField(m.Name, constOf(3, m.Name, i))
+		}
+		return s, true
+	}
+	if ref, ok = spec.AcceptV2(c.Input, lv); !ok {
+		return subject{}, false
+	}
+	// v2: the groups that are present are fixed by Decode (names); the object is decoded
+	// from a template of the same shape and then every field is assigned
+	hasT, hasE := spec.V2Shape(ref)
+	tmpl := gen.V2FromIdx([6]int{}, hasT, [3]int{}, hasE, [5]int{}).String()
+	o, err := decode2(lv, tmpl, false)
+	if err != nil {
+		return subject{}, false
+	}
+	s = subject{ver: 2, o2: o}
+	for _, t := range ref.Toks {
+		m := spec.ByName(spec.V2Metrics, t.Name)
+		s.setField(t.Name, constOf(2, t.Name, m.Index(t.Value)))
+	}
+	return s, true
+}
+
+// makeSubjectPreAssigned (v2): constructor, assignments, then the single Decode.
+func makeSubjectPreAssigned(c opsCase) (subject, bool) {
+	lv := spec.Level(c.Level)
+	o := obj2{level: lv}
+	switch lv {
+	case spec.Base:
+		o.B = m2.NewBase()
+	case spec.Temporal:
+		o.T = m2.NewTemporal()
+		o.B = o.T.BaseMetrics()
+	default:
+		o.E = m2.NewEnvironmental()
+		o.T, o.B = o.E.TemporalMetrics(), o.E.BaseMetrics()
+	}
+	s := subject{ver: 2, o2: o}
+	for _, as := range c.PreAssign {
+		if m := spec.ByName(spec.V2Metrics, as.Field); m != nil && m.Level > spec.Base {
+			if val, ok := fieldValue(2, as.Field, as.Index); ok {
+				s.setField(as.Field, val)
+			}
+		}
+	}
+	switch lv {
+	case spec.Base:
+		o.B.Decode(c.Input)
+	case spec.Temporal:
+		o.T.Decode(c.Input)
+	default:
+		o.E.Decode(c.Input)
+	}
+	return s, true
 }
 
 // redecode calls Decode a second time on the subject's own top-level object.
@@ -302,6 +403,14 @@ var checkC15 = register("C15/ops", func(c opsCase) string {
 	recipe := c
 	recipe.Ops = nil
 	recipe.PreQuery = false // the twin is never queried before its Decode
+	recipe.PreAssign = nil  // ... nor assigned before it
+	viewsOnly := len(c.PreAssign) > 0 && c.Ver == 2
+	strip := func(s snapshot) snapshot {
+		if viewsOnly {
+			s.Fields = nil
+		}
+		return s
+	}
 	var assigns []op
 	// a report built at the start is kept; nothing done later may change its content
 	var heldReport any
@@ -320,14 +429,14 @@ var checkC15 = register("C15/ops", func(c opsCase) string {
 		}
 		return t
 	}
-	reference := twin().snap() // the object as a process without history sees it
+	reference := strip(twin().snap()) // the object as a process without history sees it
 	pr0, _ := makeSubject(recipe)
 	pristine0 := pr0.snap() // a plain decode of the input before any history
 	defaultReport0 := pr0.reportDefault() // the option-less report before any history
 	exports0 := exportAll(pr0)            // template exports before any history
 	check := func(step int, o op) string {
 		tw := twin()
-		sa, st := a.snap(), tw.snap()
+		sa, st := strip(a.snap()), strip(tw.snap())
 		if d := sa.diff(st); d != "" {
 			return fmt.Sprintf("after step %d (%+v) the queried object differs from a freshly built twin: %s", step, o, d)
 		}
@@ -397,13 +506,13 @@ var checkC15 = register("C15/ops", func(c opsCase) string {
 				continue
 			}
 			assigns = append(assigns, o)
-			reference = twin().snap()
+			reference = strip(twin().snap())
 		case "redecode":
 			// a second Decode on the used object: the unchanged library refuses it (same
 			// metric); if it is accepted, the object must be what a fresh decoder produces
 			// (only while no exported field has been assigned by the harness: Decode does not
 			// promise to reset fields a caller wrote, e.g. those of an absent v2 group)
-			if c.NilRecv || len(assigns) > 0 {
+			if c.NilRecv || len(assigns) > 0 || c.FieldBuilt || viewsOnly {
 				continue
 			}
 			err := a.redecode(o.Vector)
@@ -422,6 +531,7 @@ var checkC15 = register("C15/ops", func(c opsCase) string {
 			}
 			recipe.Input = o.Vector
 			assigns = nil
+			viewsOnly = false
 			reference = twin().snap()
 			pr1, _ := makeSubject(recipe)
 			pristine0 = pr1.snap()
@@ -517,7 +627,7 @@ func drawOps(rt *rapid.T, ver int, level spec.Level) []op {
 func TestC15(t *testing.T) {
 	c := begin(t, "C15")
 	defer c.end()
-	c.rec.F.Rule = "rapid operation sequences (1-40 steps) over an object obtained from a v2 or v3 decoder of any level on a valid, mutated or arbitrary input (successful object, or the receiver left behind by a failed decode): observer queries (Score, Severity, GetError, Encode, String on every level view reached through the accessors), full observations, report construction and export, exported-field assignments (any code or the unknown/invalid constant), a second Decode on the used object (must fail, or yield exactly what a fresh decoder yields), and noise (decoding, querying and reporting other vectors); one case in four queries the constructor result completely *before* its Decode. A deterministic sweep runs query / assign / query for every exported field x every value on 6 representative vectors. After every step the queried object must equal a freshly decoded, never-queried twin rebuilt from the recipe (exported fields by reflection, every query result at every level, v3 report structs in en and ja), the twin must equal the twin built before the history, and every query repeated twice must agree. Parsers: every code of every metric parsed 200 times. Non-trivial = a sequence containing a query, a later field assignment and a later query, or any query on a failed-decode receiver; distinct by hash of the case."
+	c.rec.F.Rule = "rapid operation sequences (1-40 steps) over an object obtained from a v2 or v3 decoder of any level on a valid, mutated or arbitrary input (successful object, or the receiver left behind by a failed decode): observer queries (Score, Severity, GetError, Encode, String on every level view reached through the accessors), full observations, report construction and export, exported-field assignments (any code or the unknown/invalid constant), a second Decode on the used object (must fail, or yield exactly what a fresh decoder yields), and noise (decoding, querying and reporting other vectors); one case in four queries the constructor result completely *before* its Decode. Subjects are also built by pure field assignment on a constructor result (no Decode), and v2 subjects may have optional-group fields assigned before their Decode (then only query results are compared). A deterministic sweep runs query / assign / query for every exported field x every value on 6 representative vectors, for decoded, pre-queried and field-built subjects. After every step the queried object must equal a freshly decoded, never-queried twin rebuilt from the recipe (exported fields by reflection, every query result at every level, v3 report structs in en and ja), the twin must equal the twin built before the history, and every query repeated twice must agree. Parsers: every code of every metric parsed 200 times. Non-trivial = a sequence containing a query, a later field assignment and a later query, or any query on a failed-decode receiver; distinct by hash of the case."
 	c.rec.F.Assumptions = []string{"only observable state is compared (exported fields and query results), as the property words it", "a decoder object is used for one Decode call; re-decoding into a used object is not generated"}
 	nviol := 0
 	if shard == 0 {
@@ -546,16 +656,43 @@ func TestC15(t *testing.T) {
 						max = len(m.Codes) - 1
 					}
 					for idx := -1; idx <= max; idx++ {
-						for _, pre := range []bool{false, true} {
+						for mode := 0; mode < 3; mode++ {
 							i++
 							if nviol > 0 || !mine(i) {
 								continue
 							}
-							cs := opsCase{Ver: ver, Level: 2, PreQuery: pre, Input: vec, Ops: []op{{Kind: "snapshot"}, {Kind: "set", Field: name, Index: idx}, {Kind: "snapshot"}, {Kind: "report", Lang: ""}}}
+							cs := opsCase{Ver: ver, Level: 2, PreQuery: mode == 1, FieldBuilt: mode == 2, Input: vec, Ops: []op{{Kind: "snapshot"}, {Kind: "set", Field: name, Index: idx}, {Kind: "snapshot"}, {Kind: "report", Lang: ""}}}
 							c.rec.Case("query-set-query-sweep", fmt.Sprintf("%+v", cs), true, "sweep:query-set-query")
 							evalEnum(c, "ops", cs, checkC15, &nviol)
 						}
 					}
+				}
+			}
+		}
+	}
+	// ---- v2: every optional-group field assigned (all values) on the constructor result, then a
+	// vector without that group is decoded: the group must stay absent for every query
+	{
+		i := 0
+		for _, lv := range []spec.Level{spec.Temporal, spec.Environmental} {
+			for _, vec := range []string{"AV:N/AC:L/Au:N/C:N/I:N/A:C", "AV:L/AC:M/Au:S/C:P/I:P/A:P", "AV:N/AC:L/Au:N/C:C/I:C/A:C/E:F/RL:OF/RC:C"} {
+				if _, ok := spec.AcceptV2(vec, lv); !ok {
+					continue
+				}
+				for k := 0; k < 6; k++ {
+					i++
+					if nviol > 0 || !mine(i) {
+						continue
+					}
+					var pre []op
+					for _, m := range spec.UpTo(spec.V2Metrics, lv) {
+						if m.Level > spec.Base {
+							pre = append(pre, op{Kind: "set", Field: m.Name, Index: (k + len(m.Name)) % len(m.Codes)})
+						}
+					}
+					cs := opsCase{Ver: 2, Level: int(lv), Input: vec, PreAssign: pre, Ops: []op{{Kind: "snapshot"}}}
+					c.rec.Case("v2-preassign-sweep", fmt.Sprintf("%+v", cs), true, "sweep:v2-fields-assigned-before-decode")
+					evalEnum(c, "ops", cs, checkC15, &nviol)
 				}
 			}
 		}
@@ -569,6 +706,20 @@ func TestC15(t *testing.T) {
 			lv := gen.Level().Draw(rt, "decoder")
 			cs = opsCase{Ver: ver, Level: int(lv), NilRecv: rapid.IntRange(0, 4).Draw(rt, "nilrecv") == 0, Input: gen.Valid(ver, lv).Draw(rt, "valid").String()}
 			cs.PreQuery = !cs.NilRecv && rapid.IntRange(0, 3).Draw(rt, "prequery") == 0
+			switch rapid.IntRange(0, 7).Draw(rt, "buildkind") {
+			case 0: // the object is built by field assignment instead of Decode
+				cs.FieldBuilt, cs.NilRecv, cs.PreQuery = true, false, false
+				cl = append(cl, "subject:field-built")
+			case 1: // v2: optional-group fields assigned before the single Decode
+				if ver == 2 && !cs.NilRecv && lv > spec.Base {
+					for _, m := range spec.UpTo(spec.V2Metrics, lv) {
+						if m.Level > spec.Base && rapid.Bool().Draw(rt, "pre"+m.Name) {
+							cs.PreAssign = append(cs.PreAssign, op{Kind: "set", Field: m.Name, Index: rapid.IntRange(0, len(m.Codes)-1).Draw(rt, "preidx")})
+						}
+					}
+					cl = append(cl, "subject:v2-fields-assigned-before-decode")
+				}
+			}
 			cl = append(cl, "input:valid")
 		default:
 			sc, _ := drawStringCase(rt, ver, 64)
